@@ -199,7 +199,9 @@ def run_check(tier, seed):
         if "ERR" in (ab, bc, ac, ba):
             continue
         bad = None
-        if opp[ab] != ba:
+        if any(x not in opp for x in (ab, bc, ac, ba)):
+            bad = "a comparison did not return an ordering (panic / unexpected reply): the order is not total"
+        elif opp[ab] != ba:
             bad = "antisymmetry"
         elif ab == bc and ab != "EQ" and ac != ab:
             bad = "transitivity"
